@@ -1,7 +1,7 @@
 (* C02 - ForceFlush and Shutdown are complete, final, and return (batch processors: under every interleaving, given only that
    the worker keeps being scheduled - Batch/Fair.v; periodic reader and providers: evidenced by the scheduled runs).
    Property theorems only; proofs are in Batch/Proofs*.v and Batch/Theorems.v. *)
-From V Require Import Batch.Model Batch.ProofsA Batch.ProofsB Batch.Theorems Batch.Glue Batch.Spec Batch.TraceSpec Batch.TraceSpec2 Batch.Compose Batch.ComposeProofs Batch.Periodic Batch.PeriodicProofs Batch.PeriodicTrace Batch.PeriodicTrace2 Batch.PeriodicFair Batch.Progress Batch.Fair.
+From V Require Import Batch.Model Batch.ProofsA Batch.ProofsB Batch.Theorems Batch.Glue Batch.Spec Batch.TraceSpec Batch.TraceSpec2 Batch.TraceSpec3 Batch.Compose Batch.ComposeProofs Batch.Periodic Batch.PeriodicProofs Batch.PeriodicTrace Batch.PeriodicTrace2 Batch.PeriodicFair Batch.Progress Batch.Fair.
 From Coq Require Import List Arith.
 Import ListNotations.
 
@@ -112,6 +112,12 @@ Theorem c02_accepted_trace_spec_nonvacuous :
   Batch.Spec.spec_c02 (pevs early_true_trace) <> [] /\ run (init 1 1) early_true_trace = None.
 Proof. exact (conj demo_no_destroy (conj demo_passes_spec_c02 early_true_fails_spec_c02)). Qed.
 Print Assumptions c02_accepted_trace_spec_nonvacuous.
+
+(* "later OnEnd/OnEmit/ForceFlush calls return promptly": the checker run on the implementation's traces fails when a call that began
+   after a Shutdown returned touches a mutex / condition variable of the processor; accepted traces never do *)
+Theorem c02_accepted_trace_late_calls_prompt : forall tr, c02_late_calls_prompt (pevs tr) = [].
+Proof. exact accepted_trace_meets_spec_c02_late_calls_prompt. Qed.
+Print Assumptions c02_accepted_trace_late_calls_prompt.
 
 (* provider level (TracerProvider / LoggerProvider / MeterProvider over any children, any call sequence) *)
 Theorem c02_compose_meets_spec : forall k cs ops, spec_compose k (length cs) (model k cs ops) = [].
